@@ -1445,12 +1445,34 @@ func (g *gen) faultEpisode(i int) []string {
 	case 0:
 		return []string{fmt.Sprintf("fault %d root-w", i), fmt.Sprintf("commit %d", i), fmt.Sprintf("restored %d", i), fmt.Sprintf("peek %d", i), fmt.Sprintf("fault %d off", i)}
 	case 1:
-		return []string{fmt.Sprintf("fault %d size-w", i), g.setOp(i, g.key(), g.val()), g.delOp(i, g.key()), g.setOp(i, g.key(), g.val()), fmt.Sprintf("size %d", i),
-			fmt.Sprintf("peek %d", i), fmt.Sprintf("fault %d off", i), fmt.Sprintf("stream %d 0", i), fmt.Sprintf("root %d", i)}
+		return append(append([]string{fmt.Sprintf("fault %d size-w", i)}, g.writesUnderFault(i)...), fmt.Sprintf("size %d", i),
+			fmt.Sprintf("peek %d", i), fmt.Sprintf("fault %d off", i), fmt.Sprintf("stream %d 0", i), fmt.Sprintf("root %d", i))
 	}
 
-	return []string{fmt.Sprintf("fault %d raw-w", i), g.setOp(i, g.key(), g.val()), g.delOp(i, g.key()), g.setOp(i, g.key(), g.val()), fmt.Sprintf("stream %d 0", i),
-		fmt.Sprintf("peek %d", i), fmt.Sprintf("fault %d off", i), fmt.Sprintf("size %d", i), g.readOp(i), fmt.Sprintf("commit %d", i), fmt.Sprintf("reopen %d", i), fmt.Sprintf("stream %d 0", i)}
+	return append(append([]string{fmt.Sprintf("fault %d raw-w", i)}, g.writesUnderFault(i)...), fmt.Sprintf("stream %d 0", i),
+		fmt.Sprintf("peek %d", i), fmt.Sprintf("fault %d off", i), fmt.Sprintf("size %d", i), g.readOp(i), fmt.Sprintf("commit %d", i), fmt.Sprintf("reopen %d", i), fmt.Sprintf("stream %d 0", i))
+}
+
+// writesUnderFault: a few Set / Delete calls in random order (the first one that fails half way ends the oracle's
+// judgement of the instance, so each kind has to come first sometimes); deletes go for the keys written last.
+func (g *gen) writesUnderFault(i int) []string {
+	k1, k2 := g.key(), g.key()
+	var ops []string
+	if g.rng.Bool() {
+		// make sure there is something to delete, while the store still works
+		ops = append(ops, fmt.Sprintf("fault %d off", i), g.setOp(i, k1, g.val()))
+		switch g.rng.Intn(2) {
+		case 0:
+			ops = append(ops, fmt.Sprintf("fault %d size-w", i))
+		default:
+			ops = append(ops, fmt.Sprintf("fault %d raw-w", i))
+		}
+		ops = append(ops, g.delOp(i, k1), g.setOp(i, k2, g.val()))
+	} else {
+		ops = append(ops, g.setOp(i, k1, g.val()), g.delOp(i, k1), g.setOp(i, k2, g.val()))
+	}
+
+	return append(ops, g.delOp(i, g.key()))
 }
 
 func (g *gen) randomOp(i int) []string {
@@ -2038,8 +2060,10 @@ func main() {
 	// write faults of the store: a Commit that cannot store the root changes nothing; Set / Delete have no roll-back
 	corpus = append(corpus, []string{"open 0 map", "open 1 set", "set 0 " + k.Core[0] + " 61", "commit 0", "set 0 " + k.Core[1] + " 62", "fault 0 root-w", "commit 0", "peek 0", "fault 0 off",
 		"commit 0", "reopen 0", "root 0", "fault 0 size-w", "set 0 " + k.Core[0] + " 63", "set 0 " + k.Core[2] + " 64", "size 0", "has 0 " + k.Core[2], "stream 0 0", "del 0 " + k.Core[1], "size 0", "peek 0",
-		"fault 0 off", "set 0 " + k.Far[0] + " -", "size 0", "root 0", "add 1 " + k.Core[0], "fault 1 raw-w", "add 1 " + k.Core[1], "add 1 " + k.Core[0], "has 1 " + k.Core[1], "size 1", "stream 1 0",
+		"fault 0 off", "set 0 " + k.Far[0] + " -", "size 0", "root 0", "add 1 " + k.Core[0], "fault 1 raw-w", "del 1 " + k.Core[0], "has 1 " + k.Core[0], "stream 1 0", "size 1", "add 1 " + k.Core[1], "add 1 " + k.Core[0], "has 1 " + k.Core[1], "size 1", "stream 1 0",
 		"del 1 " + k.Core[0], "has 1 " + k.Core[0], "stream 1 0", "size 1", "fault 1 off", "peek 1", "commit 1", "reopen 1", "stream 1 0", "size 1", "has 1 " + k.Core[1]})
+	corpus = append(corpus, []string{"open 0 mapa:ppp", "set 0 " + k.Core[0] + " 61", "set 0 " + k.Core[1] + " 62", "fault 0 size-w", "del 0 " + k.Core[0], "size 0", "has 0 " + k.Core[0],
+		"stream 0 0", "peek 0", "fault 0 off", "del 0 " + k.Core[1], "size 0", "commit 0", "reopen 0", "size 0", "stream 0 0"})
 	for _, c := range corpus {
 		runCase(r, 0, c)
 	}
